@@ -191,6 +191,13 @@ func TestC02Rapid(t *testing.T) {
 	foreignWarmup("datamatrix")
 	st := NewStats("C02", "rapid")
 	runRapid(t, st, func(rt *rapid.T) {
+		if rapid.IntRange(0, 19).Draw(rt, "seek") == 0 {
+			for _, c := range genDMSeek(rt) {
+				c02Account(st, c, checkDMRoundTrip(rt, c))
+				st.Class("around a size transition of the implementation (found by bisection)")
+			}
+			return
+		}
 		c := genDMCase(rt)
 		res := checkDMRoundTrip(rt, c)
 		c02Account(st, c, res)
